@@ -777,23 +777,59 @@ func c03inject(p *Program, r *Report) {
 	}
 	r.Add(c03InjectRule, FnName(dc), "symbol decoding is injective: the table inverts the alphabet (both cases), everything else is −1", dc.Pos(), bad == "" && p.assignedOnlyByInit(table),
 		fmt.Sprintf("%d entries agree; %s", n, bad))
-	// mixed case (see C02.guards / C07.strict): repeat the structural fact for both decoders
-	okCase := false
-	for _, b := range dc.Blocks {
+	// mixed case: both decoders
+	exact, rej, why := caseFlagsExact(p, dc, dc.Params[0])
+	r.Add(c03InjectRule, FnName(dc), "mixed-case CashAddr strings reject", dc.Pos(), exact && rej, "flags cover exactly a..z and A..Z; both set leads only to error returns "+why)
+	if bd := p.Func("bech32", "Decode"); bd != nil {
+		ok, how := mixedCaseRejects(p, bd)
+		r.Add(c03InjectRule, FnName(bd), "mixed-case bech32 strings reject", bd.Pos(), ok, how)
+	}
+}
+
+// mixedCaseRejects recognises either the ToLower/ToUpper comparison form or the
+// per-character flag form with exact letter ranges.
+func mixedCaseRejects(p *Program, fn *ssa.Function) (bool, string) {
+	param := fn.Params[0]
+	var lowerNE, upperNE []*ssa.BasicBlock
+	for _, b := range fn.Blocks {
 		iff, ok := lastInstr(b).(*ssa.If)
 		if !ok {
 			continue
 		}
-		ph1, ok := iff.Cond.(*ssa.Phi)
-		if !ok || !isBoolPhi(ph1) {
+		bo, ok := iff.Cond.(*ssa.BinOp)
+		if !ok || bo.Op != token.NEQ {
 			continue
 		}
-		inner := b.Succs[0]
-		if iff2, ok := lastInstr(inner).(*ssa.If); ok && len(inner.Preds) == 1 {
-			if ph2, ok := iff2.Cond.(*ssa.Phi); ok && isBoolPhi(ph2) && ph2 != ph1 && !canReachAccept(dc, inner.Succs[0]) {
-				okCase = true
+		for _, pr := range [][2]ssa.Value{{bo.X, bo.Y}, {bo.Y, bo.X}} {
+			if pr[0] != ssa.Value(param) {
+				continue
+			}
+			if c, ok := pr[1].(*ssa.Call); ok && len(c.Call.Args) == 1 && c.Call.Args[0] == ssa.Value(param) {
+				if staticCalleeIs(&c.Call, "strings.ToLower") {
+					lowerNE = append(lowerNE, b)
+				}
+				if staticCalleeIs(&c.Call, "strings.ToUpper") {
+					upperNE = append(upperNE, b)
+				}
 			}
 		}
 	}
-	r.Add(c03InjectRule, FnName(dc), "mixed-case CashAddr strings reject", dc.Pos(), okCase, "both case flags set leads only to error returns")
+	for _, lb := range lowerNE {
+		for _, ub := range upperNE {
+			for _, pr := range [][2]*ssa.BasicBlock{{lb, ub}, {ub, lb}} {
+				outer, inner := pr[0], pr[1]
+				if outer.Succs[0] == inner && len(inner.Preds) == 1 && !canReachAccept(fn, inner.Succs[0]) {
+					return true, "input ≠ lower(input) ∧ input ≠ upper(input) leads only to error returns"
+				}
+			}
+		}
+	}
+	exact, rej, why := caseFlagsExact(p, fn, param)
+	if exact && rej {
+		return true, "per-character flags cover exactly a..z and A..Z; both set leads only to error returns"
+	}
+	if why == "" {
+		why = "neither the lower/upper comparison nor exact per-character case flags found"
+	}
+	return false, why
 }
